@@ -91,7 +91,8 @@ Fixpoint has_data (t : cty) : bool :=
 (* a dataclass-typed value goes through a nested YAML text already while it is serialised: where the text layer is
    outside the model, so is the data handed to the outer dumper *)
 Definition dumped_modelled (c : case) : bool :=
-  text_modelled c || negb (existsb (fun lw => has_data (lf_ty (fst lw))) (c_leaves c)).
+  negb (existsb (fun lw => has_data (lf_ty (fst lw))) (c_leaves c)
+        && existsb (fun lw => has_bad_str FYaml (snd lw)) (c_leaves c)).     (* the nested text is always YAML *)
 
 (* save()'s skip_none inside a dataclass-typed value (finding class 1): what the parser makes of the emptied nested
    mappings (`lim: {}`) is not modelled; the property verdict does not depend on it *)
@@ -101,8 +102,9 @@ Definition nested_none_dropped (c : case) : bool :=
 
 Definition judge1 (c : case) : verdict :=
   {| v_model :=
-       (if vr_comments (c_var c) then match c_dumped c with None => true | d => olist_eqb oveq (model_dumped c) d end
-        else if dumped_modelled c then olist_eqb oveq (model_dumped c) (c_dumped c) else true)
+       (if negb (dumped_modelled c) then true
+        else if vr_comments (c_var c) then match c_dumped c with None => true | d => olist_eqb oveq (model_dumped c) d end
+        else olist_eqb oveq (model_dumped c) (c_dumped c))
        && forallb str_tie (c_strs c) && forallb float_tie (c_floats c)
        && (if text_modelled c then
              match c_dumped c with
